@@ -50,6 +50,7 @@ structure Limits where
   handlerCatches : Bool := false
   hasSafe : Bool := false
   catchDepth : Nat := 0
+  noCodeCallbacks : Nat := 0   -- the program makes this many efun callbacks that execute no instruction
   deriving Repr
 
 /-- ticks the master's error handler may use per invocation (it runs on a refreshed budget, once per catch frame
@@ -85,9 +86,11 @@ def judgeObs (lim : Limits) (toks : List String) : List String :=
 /-- which limit bounds the result of a constructor -/
 def limitOf (lim : Limits) (ctor : String) : Int :=
   match ctor with
-  | "allocate" | "aggregate" | "add_array" | "add_array_self" | "slice" | "explode" | "explode0" => lim.maxArray
+  | "allocate" | "aggregate" | "add_array" | "add_array_self" | "slice" | "explode" | "explode0"
+  | "copy_array" | "sort_array" | "map_array" | "filter_array" | "unique_array" | "array_sub" | "array_and"
+  | "keys" | "values" => lim.maxArray
   | "allocate_buffer" | "add_buffer" => lim.maxBuffer
-  | "map_insert" | "map_aggregate" | "map_add" => lim.maxMapping
+  | "map_insert" | "map_aggregate" | "map_add" | "copy_mapping" | "allocate_mapping" => lim.maxMapping
   | _ => lim.maxString
 
 structure JState where
@@ -105,7 +108,12 @@ def judgeLine (s : JState) (line : String) : JState :=
     match kindOfName k with
     | some k => s.flag (judgeEv [.afterCatch k])
     | none => s.flag [s!"malformed {line}"]
-  | "r" :: "ret" :: _ => { s with pendingEv := s.pendingEv - 1 }
+  | "r" :: "ret" :: _ =>
+    let s := { s with pendingEv := s.pendingEv - 1 }
+    -- callbacks are work even when they run no LPC code: more of them than the budget cannot complete
+    if s.lim.cost > 0 ∧ (s.lim.noCodeCallbacks : Int) > s.lim.cost + handlerAllowance then
+      s.flag [s!"eval-exceeded uncharged-callbacks callbacks={s.lim.noCodeCallbacks} budget={s.lim.cost}"]
+    else s
   | "r" :: "err" :: _ => { s with pendingEv := s.pendingEv - 1 }
   | "obs" :: rest => s.flag (judgeObs s.lim rest)
   | ["sz", "err"] => { s with pendingSz := s.pendingSz.drop 1 }
